@@ -415,7 +415,7 @@ def build(cls, enc, secs, segs, rng=None, hdr=None, tables_first=False, addr_fro
     return im, b
 
 
-def rich_image(rng, cls, enc, nsym=None, tables_first=False):
+def rich_image(rng, cls, enc, nsym=None, tables_first=False, simple_segments=False):
     """An image with the table kinds the accessors read: symbols (+SysV/GNU hash), relocations, dynamic,
     notes, modinfo, arrays, version tables."""
     e = E(enc)
@@ -510,10 +510,31 @@ def rich_image(rng, cls, enc, nsym=None, tables_first=False):
     secs = []
     for n in order:
         d = defs[n]; d["sname"] = n.encode(); secs.append(d)
-    segs = [dict(type=PT_LOAD, flags=5, align=0x1000, cover=[idx[".text"]]),
-            dict(type=PT_LOAD, flags=6, align=0x1000, cover=[idx[n] for n in order[1:12]]),
-            dict(type=PT_DYNAMIC, flags=6, align=ptr, cover=[idx[".dynamic"]]),
-            dict(type=PT_NOTE, flags=4, align=4, cover=[idx[".note.test"]])]
+    # program headers: 1-3 loadable segments over contiguous groups of the allocated sections, nested segments
+    # (RELRO/NOTE/DYNAMIC-like) over sub-ranges that often start at a group's first section, in any table order
+    alloc_idx = [idx[n] for n in order[:12]]
+    if simple_segments:
+        groups = [alloc_idx[:1], alloc_idx[1:]]
+    else:
+        k = rng.randint(1, 3)
+        cuts = sorted(rng.sample(range(1, len(alloc_idx)), k - 1)) if k > 1 else []
+        bounds = [0] + cuts + [len(alloc_idx)]
+        groups = [alloc_idx[bounds[i]:bounds[i + 1]] for i in range(len(bounds) - 1)]
+    segs = []
+    for gi, grp in enumerate(groups):
+        segs.append(dict(type=PT_LOAD, flags=rng.choice([5, 6, 4]), align=0x1000, cover=list(grp)))
+    nested = [dict(type=PT_DYNAMIC, flags=6, align=ptr, cover=[idx[".dynamic"]]),
+              dict(type=PT_NOTE, flags=4, align=4, cover=[idx[".note.test"]])]
+    if not simple_segments:
+        for grp in groups:
+            if len(grp) >= 2 and rng.random() < 0.6:
+                a = 0 if rng.random() < 0.6 else rng.randrange(0, len(grp) - 1)
+                b = rng.randint(a + 1, len(grp) - 1)
+                nested.append(dict(type=rng.choice([0x6474e552, PT_NOTE, 0x6474e550]), flags=4, align=rng.choice([1, 4, 8]), cover=grp[a:b]))
+        segs = segs + nested
+        rng.shuffle(segs)
+    else:
+        segs = segs + nested
     return build(cls, enc, secs, segs, rng, tables_first=tables_first, addr_from_offset=0x10000)
 
 
@@ -594,3 +615,24 @@ def corrupt_table_words(b, im, rng, types=None):
             b[off:off + wd] = struct.pack(e + {2: "H", 4: "I", 8: "Q"}[wd], v)
             desc.append("%s[%d:%d]=%d" % (s["sname"].decode("latin1"), k, wd, v))
     return bytes(b), desc
+
+
+def corrupt_hash_headers(b, im, rng):
+    """Set several header words of a SysV / GNU hash section at once: counts whose sum or product wraps."""
+    b = bytearray(b)
+    e = E(im.enc)
+    cand = [s for s in im.sections if s.get("data") and s["type"] in (5, 0x6ffffff6) and len(s["data"]) >= 16]
+    if not cand:
+        return bytes(b), []
+    s = rng.choice(cand)
+    big = [0xffffffff, 0xfffffffe, 0x80000000, 0x7fffffff, 0x40000000, 0xfffffff0, 0xc0000000, 1, 2, 0]
+    words = [rng.choice(big) for _ in range(4)]
+    if s["type"] == 5 and rng.random() < 0.7:
+        nb = rng.choice([0xffffffff, 0x80000000, 0xfffffffe, 0xc0000000])
+        words[0] = nb
+        words[1] = (2**32 - 2 - nb + rng.choice([0, 1, 2, 3])) % 2**32
+    k = 2 if s["type"] == 5 else 4
+    for i in range(k):
+        off = s["offset"] + 4 * i
+        b[off:off + 4] = struct.pack(e + "I", words[i])
+    return bytes(b), ["%s header=%s" % (s["sname"].decode("latin1"), words[:k])]
